@@ -88,7 +88,9 @@ func (sys System) parseSpan(s string) (span, bool, error) {
 			break
 		}
 		maxOpen := close == ')'
-		min, err := sys.parse(versions[0], false)
+		// Either end can hold ∞: stepping past the largest number saturates
+		// there, so ">1.9223372036854775806" is [1.∞.∞:∞.∞.∞].
+		min, err := sys.parse(versions[0], true)
 		if err != nil {
 			return span{}, false, err
 		}
@@ -142,6 +144,13 @@ func newSpan(min *Version, minOpen bool, max *Version, maxOpen bool) (span, erro
 		if minOpen || maxOpen {
 			// [a,a) and (a,a] hold nothing; a unit span would match a.
 			return span{rank: empty}, nil
+		}
+		for _, n := range min.num {
+			if n == infinity {
+				// No version has ∞ for a number, so the point is
+				// no version at all (and could not be written as one).
+				return span{rank: empty}, nil
+			}
 		}
 		return span{
 			minOpen: minOpen,
